@@ -569,13 +569,12 @@ def degreesOk (ssl : Bool) (l : List Stage) : Bool :=
   | .ok e => finalOk ssl e
 
 /-- configurations the property quantifies over (see `properties.jsonl`): a mask function is given,
-the scaling key is one of the k-spaces (or the body-coil image when that is estimated), SENSE
-reconstructions have maps, maps are not ESPIRiT (opaque eigen-iteration), ACS kept in the SSL split only
+the scaling key is one of the two k-spaces (`ComputeScalingFactor` asserts a complex tensor, so e.g.
+`body_coil_image` raises in the code — outside the model), SENSE reconstructions have maps, maps are not ESPIRiT (opaque eigen-iteration), ACS kept in the SSL split only
 when there is an ACS mask -/
 def Config.valid (c : Config) : Bool :=
   c.maskFunc
-  && (c.scalingKey == .key .maskedKspace || c.scalingKey == .key .kspace
-      || (c.scalingKey == .key .bodyCoilImage && c.bodyCoil))
+  && (c.scalingKey == .key .maskedKspace || c.scalingKey == .key .kspace)
   && (!(c.recon == .sense || c.recon == .senseMod) || c.estimateSmaps)
   && (!c.estimateSmaps || c.smapType != .espirit)
   && (!c.splitKeepAcs || (c.ssl && c.estimateSmaps))
